@@ -240,6 +240,7 @@ func (f *FaultDB) FindClosestSnapshotInfo(ctx context.Context, docRefKey types.D
 }
 
 func (f *FaultDB) CreateSnapshotInfo(ctx context.Context, docRefKey types.DocRefKey, doc *document.InternalDocument) error {
+	f.maybePark("CreateSnapshotInfo")
 	b, a := f.hit("CreateSnapshotInfo")
 	if b {
 		return ErrInjected
